@@ -2,6 +2,7 @@ package c04
 
 import (
 	"fmt"
+	"strings"
 
 	pr "github.com/benoitkugler/webrender/css/properties"
 	"github.com/benoitkugler/webrender/html/tree"
@@ -14,7 +15,9 @@ import (
 // that contains one element of every kind the UA sheet and the presentational hints style.
 
 const sinkDoc = `<!doctype html><html lang="fr"><head><title>t</title><style>
-@page { margin: 1cm; @top-center { content: "h" } @bottom-right { content: counter(page) } }
+html::before, html::after, html::marker, html::first-line, html::first-letter, html::footnote-call, html::footnote-marker { font-size: 7px }
+@page { margin: 1cm; padding-left: 2rem; padding-right: 32px; @top-center { content: "h"; padding-left: 2rem; padding-right: 32px } @bottom-right { content: counter(page) } }
+q::before, li::marker { padding-left: 2rem; padding-right: 32px }
 @page :first { margin-top: 2in }
 @page wide { size: landscape }
 q::before { color: red } li::marker { color: blue } p::first-letter { font-size: 2em } p::first-line { color: green }
@@ -120,6 +123,27 @@ func (c *check) runSink(ctx *engine.Ctx, hints bool) {
 			nDiff++
 			c.fail(ctx, engine.Failure{Clause: "R5-sweep", Features: feats, Case: "ua-sheet document " + k,
 				Detail: fmt.Sprintf("forward sweep (document order, table order) gives %s, backward sweep gives %s", v, b)})
+		}
+	}
+	// rem: padding-left is declared 2rem next to padding-right 32px (the root's font size is the
+	// initial 16px under the user-agent sheet) on the page, margin-box and pseudo-element styles
+	nRem := 0
+	for k := range fw {
+		if !strings.HasSuffix(k, " padding-left") {
+			continue
+		}
+		base := strings.TrimSuffix(k, " padding-left")
+		if !(strings.HasPrefix(base, "@page") && (strings.HasSuffix(base, ")") || strings.HasSuffix(base, "@top-center"))) &&
+			!(strings.HasPrefix(base, "q#") && strings.HasSuffix(base, "::before")) && !(strings.HasPrefix(base, "li#") && strings.HasSuffix(base, "::marker")) {
+			continue
+		}
+		ctx.Count("reach:R6-ua-sheet-rem", 1)
+		for _, o := range []obs{fw, bw} {
+			if r := o[base+" padding-right"]; o[k] != r && nRem < 3 {
+				nRem++
+				c.fail(ctx, engine.Failure{Clause: "R6-font-relative", Features: append(feats[:len(feats):len(feats)], "unit:rem", "rootpseudo:foreign"), Case: "ua-sheet document " + k,
+					Detail: fmt.Sprintf("padding-left:2rem computes to %s, padding-right:32px to %s (root font size 16px; the pseudo-elements of the root have 7px)", o[k], r)})
+			}
 		}
 	}
 	ctx.Case(true, fmt.Sprintf("%d values", len(fw)))
